@@ -35,6 +35,10 @@ class PrefixSid(Attribute):
     FLAG: int = Attribute.Flag.TRANSITIVE | Attribute.Flag.OPTIONAL
     CACHING: ClassVar[bool] = True
     TLV: ClassVar[int] = -1
+    # RFC 8669 section 6: a malformed BGP Prefix-SID attribute is handled by "attribute discard".
+    # Without a class here, the ValueError of a sub-TLV decoder (an Originator SRGB TLV whose
+    # length is not 2 + 6n) left the attribute walk untyped and reset the session with 1/0.
+    DISCARD: ClassVar[bool] = True
 
     # Registered subclasses we know how to decode
     registered_srids: ClassVar[dict[int, Type[Any]]] = dict()
